@@ -1880,7 +1880,8 @@ class Gen:
                     if any(a0 <= n["s"] and n["e"] <= b0 for a0, b0 in dead):
                         hit += 1  # consumed by another rule that re-applies the call map itself
                         continue
-                    ed.insert(n["s"], (func[:-1] + "(&") if func.endswith("&") else (func + "("), ("rule", "R11"), wraps=n["e"])
+                    # `helper&`: the receiver is passed by reference; `helper&mut`: by mutable reference
+                    ed.insert(n["s"], (func[:-4] + "(&mut ") if func.endswith("&mut") else (func[:-1] + "(&") if func.endswith("&") else (func + "("), ("rule", "R11"), wraps=n["e"])
                     if nargs == 0:
                         ed.replace(rc["e"], n["e"], ")", ("rule", "R11"))
                     else:
